@@ -141,12 +141,8 @@ crypt_scrypt_rn (const char *phrase, size_t phr_size,
                  uint8_t *output, size_t o_size,
                  void *scratch, size_t s_size)
 {
-  if (o_size < set_size + 1 + 43 + 1 ||
-      CRYPT_OUTPUT_SIZE < set_size + 1 + 43 + 1)
-    {
-      errno = ERANGE;
-      return;
-    }
+  /* Whether the result fits is checked by yescrypt_r, which knows how
+     much of the setting is replaced by the new hash.  */
 
   /* Setting is invalid.  */
   if (strncmp (setting, "$7$", 3) || !verify_salt (setting, set_size))
